@@ -5,6 +5,7 @@
 import RV.Oracle.RolloutSM
 import RV.Props.RolloutThms
 import RV.Props.ClusterThms
+import RV.Lemmas.ResetOnExit
 namespace RV.Props.Reconcile
 open RV.Arith RV.Traffic RV.RolloutSM RV.Oracle.RolloutSM RV.Props.Rollout
 
@@ -373,10 +374,10 @@ theorem not_corrupted (w : World) (h : corrupted w = false) :
     memory) that is not internally corrupted — in particular for **every** value a user can patch into
     `nextStepIndex` and `currentStepState`, every plan edit the webhook accepts, every BatchRelease
     progress report — one `Reconcile` of the Rollout controller does not crash. -/
-theorem reconcile_total (w : World) (h : corrupted w = false) : reconcile w ≠ .panic := by
+theorem reconcile_total_core (w : World) (h : corrupted w = false) : reconcileCore w ≠ .panic := by
   obtain ⟨hsteps, hnr, hnt, hns, hsub, hbr⟩ := not_corrupted w h
   have hfr := hf_frame w.ro
-  unfold reconcile
+  unfold reconcileCore
   dsimp only
   generalize hro1 : (handleFinalizer w.ro).1 = ro1 at *
   have e_steps : ro1.steps = w.ro.steps := by rw [hfr]
@@ -518,11 +519,11 @@ theorem cs_some (ro : Rollout) (wl : WL) (h : wl.consistent = true) : ∃ ns, ca
   · dsimp only; rw [if_neg (by simp [h])]; exact ⟨_, rfl⟩
 
 /-- how a reconcile of a rolling rollout with a readable workload is computed -/
-theorem reconcile_inRolling (w : World) (wl : WL) (os : Sub)
+theorem reconcile_inRolling_core (w : World) (wl : WL) (os : Sub)
     (hph : w.ro.phase = .progressing) (hr : w.ro.reason = .inRolling) (hwl : w.wl = some wl)
     (hc : wl.consistent = true) (hos : w.ro.sub = some os) :
     ∃ ns s, Same w.ro ns ∧ ns.sub = some s ∧ subCore s = subCore os ∧ ns.reason = w.ro.reason ∧
-      reconcile w =
+      reconcileCore w =
         (match inRolling w w.ro ns s wl with
          | .panic => .panic
          | .val r =>
@@ -549,7 +550,7 @@ theorem reconcile_inRolling (w : World) (wl : WL) (os : Sub)
     have hreason : ns.reason = w.ro.reason := by
       rw [cs_reason _ ns wl hcs (by rw [e_phase]; exact hph), hfr]
     refine ⟨ns, s, hsame', hs, hrel, hreason, ?_⟩
-    unfold reconcile
+    unfold reconcileCore
     dsimp only
     rw [hwl, hcs]
     dsimp only
@@ -564,7 +565,7 @@ theorem reconcile_inRolling (w : World) (wl : WL) (os : Sub)
     rolling is dispatched before anything else (pause, plan change, continuous release, normal progress):
     the reason becomes Cancelling — which runs the rollback task list, traffic back to stable first — and
     this reconcile writes nothing to the BatchRelease or the network. -/
-theorem rollback_first (w : World) (r : StepResult) (h : reconcile w = .val r) : rollbackFirst w r = true := by
+theorem rollback_first_core (w : World) (r : StepResult) (h : reconcileCore w = .val r) : rollbackFirst w r = true := by
   unfold rollbackFirst
   split
   · rename_i os wl hos hwl
@@ -574,7 +575,7 @@ theorem rollback_first (w : World) (r : StepResult) (h : reconcile w = .val r) :
       unfold inRollingNow at hin
       simp only [Bool.and_eq_true, decide_eq_true_eq, Bool.not_eq_true'] at hin
       obtain ⟨⟨hph, hr⟩, _⟩ := hin
-      obtain ⟨ns, s, hsame, hs, hcore, hreason, hrec⟩ := reconcile_inRolling w wl os hph hr hwl hcons hos
+      obtain ⟨ns, s, hsame, hs, hcore, hreason, hrec⟩ := reconcile_inRolling_core w wl os hph hr hwl hcons hos
       rw [hrec] at h
       -- the first branch of the dispatch
       have hbr : inRolling w w.ro ns s wl =
@@ -600,7 +601,7 @@ theorem rollback_first (w : World) (r : StepResult) (h : reconcile w = .val r) :
 /-- **C02.iii (whole reconcile)** — for every world: while `spec.strategy.paused` is set, a reconcile of a
     rolling rollout (no rollback pending) changes neither the step index nor the sub-state, and writes
     nothing to the BatchRelease, the workload or the network. -/
-theorem paused_no_progress (w : World) (r : StepResult) (h : reconcile w = .val r) (hfin : w.ro.hasFinalizer = true) :
+theorem paused_no_progress_core (w : World) (r : StepResult) (h : reconcileCore w = .val r) (hfin : w.ro.hasFinalizer = true) :
     pausedNoProgress w r = true := by
   unfold pausedNoProgress
   split
@@ -616,7 +617,7 @@ theorem paused_no_progress (w : World) (r : StepResult) (h : reconcile w = .val 
       cases hos : w.ro.sub with
       | none =>
         -- no sub-status: the pause is honoured as well
-        unfold reconcile at h
+        unfold reconcileCore at h
         dsimp only at h
         rw [hhf] at h
         dsimp only at h
@@ -641,7 +642,7 @@ theorem paused_no_progress (w : World) (r : StepResult) (h : reconcile w = .val 
         subst h
         simp [hnsub, hwl]
       | some os =>
-        obtain ⟨ns, s, hsame, hs, hcore, hreason, hrec⟩ := reconcile_inRolling w wl os hph hr hwl hcons hos
+        obtain ⟨ns, s, hsame, hs, hcore, hreason, hrec⟩ := reconcile_inRolling_core w wl os hph hr hwl hcons hos
         rw [hrec, hhf] at h
         have hbr : inRolling w w.ro ns s wl =
             .val { w := { w with ro := { ns with reason := .paused } }, roGone := false, requeue := false, err := false, writes := [] } := by
@@ -664,7 +665,7 @@ theorem paused_no_progress (w : World) (r : StepResult) (h : reconcile w = .val 
     deleted, a reconcile writes nothing to the BatchRelease, the workload or the network, keeps the status cursor, the
     phase and the Progressing reason, and asks to be run again.  In particular a *disabled* Rollout does not start (or
     continue) its clean-up in that window. -/
-theorem inconsistent_waits (w : World) (r : StepResult) (h : reconcile w = .val r) : inconsistentWaits w r = true := by
+theorem inconsistent_waits_core (w : World) (r : StepResult) (h : reconcileCore w = .val r) : inconsistentWaits w r = true := by
   unfold inconsistentWaits
   split
   · rename_i wl hwl
@@ -682,7 +683,7 @@ theorem inconsistent_waits (w : World) (r : StepResult) (h : reconcile w = .val 
         rw [if_neg (by simp [hhf.1]), hwl]
         dsimp only
         rw [if_pos hcons]
-      unfold reconcile at h
+      unfold reconcileCore at h
       dsimp only at h
       rw [hcs] at h
       simp only [Out.val.injEq] at h
@@ -789,7 +790,7 @@ theorem finalise_fin (w w' : World) (ns : Rollout) (wl : Option WL) (reason : Re
 
 /-- every result of `reconcile`: whether the object disappeared, its finalizer flag, and how its
     Terminating reason can have become Completed -/
-theorem reconcile_fin (w : World) (r : StepResult) (h : reconcile w = .val r) :
+theorem reconcile_fin_core (w : World) (r : StepResult) (h : reconcileCore w = .val r) :
     r.roGone = (handleFinalizer w.ro).2.1 ∧ r.w.ro.hasFinalizer = (handleFinalizer w.ro).1.hasFinalizer ∧
     (r.w.ro.term = .completed → w.ro.term ≠ .completed →
       r.w.ro.sub = none ∨ ∃ s', r.w.ro.sub = some s' ∧ s'.finStep = .end_) := by
@@ -797,7 +798,7 @@ theorem reconcile_fin (w : World) (r : StepResult) (h : reconcile w = .val r) :
   have e_term : (handleFinalizer w.ro).1.term = w.ro.term := by rw [hfr]
   have e_del : (handleFinalizer w.ro).1.deleting = w.ro.deleting := by rw [hfr]
   have e_phase : (handleFinalizer w.ro).1.phase = w.ro.phase := by rw [hfr]
-  unfold reconcile at h
+  unfold reconcileCore at h
   dsimp only at h
   split at h
   · cases h
@@ -931,8 +932,8 @@ theorem reconcile_fin (w : World) (r : StepResult) (h : reconcile w = .val r) :
     object disappears / loses its own finalizer only while it is being deleted and its Terminating
     condition already says Completed; and that condition becomes Completed only in a reconcile whose
     clean-up sequence ended with the cursor at END (or there was nothing to clean up). -/
-theorem finalizer_guard (w : World) (r : StepResult) (h : reconcile w = .val r) : finalizerGuard w r = true := by
-  obtain ⟨g1, g2, g3⟩ := reconcile_fin w r h
+theorem finalizer_guard_core (w : World) (r : StepResult) (h : reconcileCore w = .val r) : finalizerGuard w r = true := by
+  obtain ⟨g1, g2, g3⟩ := reconcile_fin_core w r h
   obtain ⟨h1, h2, _⟩ := handleFinalizer_guard w.ro
   unfold finalizerGuard
   rw [Bool.and_eq_true]
@@ -956,7 +957,7 @@ theorem finalizer_guard (w : World) (r : StepResult) (h : reconcile w = .val r) 
 
 /-! ### C10 — blue-green refuses a newer revision (whole reconcile) -/
 
-theorem bluegreen_refuses_continuous (w : World) (r : StepResult) (h : reconcile w = .val r) :
+theorem bluegreen_refuses_continuous_core (w : World) (r : StepResult) (h : reconcileCore w = .val r) :
     blueGreenRefusesContinuous w r = true := by
   unfold blueGreenRefusesContinuous
   split
@@ -967,7 +968,7 @@ theorem bluegreen_refuses_continuous (w : World) (r : StepResult) (h : reconcile
       unfold inRollingNow at hin
       simp only [Bool.and_eq_true, decide_eq_true_eq, Bool.not_eq_true'] at hin
       obtain ⟨⟨hph, hr⟩, _⟩ := hin
-      obtain ⟨ns, s, hsame, hs, hcore, hreason, hrec⟩ := reconcile_inRolling w wl os hph hr hwl hcons hos
+      obtain ⟨ns, s, hsame, hs, hcore, hreason, hrec⟩ := reconcile_inRolling_core w wl os hph hr hwl hcons hos
       rw [hrec] at h
       have hbr : inRolling w w.ro ns s wl =
           .val { w := { w with ro := ns }, roGone := false, requeue := false, err := false, writes := [] } := by
@@ -1360,7 +1361,7 @@ theorem cs_next (ro ns : Rollout) (wl : Option WL) (h : calculateStatus ro wl = 
     reconcile (or there is no sub-status yet), it carries none afterwards.  Only a user writes a jump
     request; the controller consumes it (`doCanaryJump`) and whenever it moves the step index itself it
     records the natural successor. -/
-theorem no_self_jump (w : World) (r : StepResult) (h : reconcile w = .val r) : noSelfJump w r = true := by
+theorem no_self_jump_core (w : World) (r : StepResult) (h : reconcileCore w = .val r) : noSelfJump w r = true := by
   unfold noSelfJump
   split
   · rename_i s' hs'
@@ -1383,7 +1384,7 @@ theorem no_self_jump (w : World) (r : StepResult) (h : reconcile w = .val r) : n
       have e_sub : (handleFinalizer w.ro).1.sub = w.ro.sub := by rw [hfr]
       have hro1 : ∀ s, (handleFinalizer w.ro).1.sub = some s → NoReq (handleFinalizer w.ro).1 s :=
         fun s hs => (hin s (e_sub ▸ hs)).congr e_steps rfl rfl
-      unfold reconcile at h
+      unfold reconcileCore at h
       dsimp only at h
       -- result carrying the untouched rollout
       have leafRo1 : ∀ (w0 : World) (rq e : Bool) (ws : List String),
@@ -1580,10 +1581,10 @@ theorem inRolling_gates (w : World) (old ns : Rollout) (s os : Sub) (wl : WL) (r
                   exact Or.inl (hst ▸ (g3 hr (by rw [hst]; exact hnr)).1)
 
 /-- a rolling, not deleted rollout whose workload status is inconsistent: the reconcile only waits -/
-theorem reconcile_inconsistent (w : World) (wl : WL) (r : StepResult) (hdel : w.ro.deleting = false) (hwl : w.wl = some wl)
-    (hc : wl.consistent = false) (h : reconcile w = .val r) : r.w.ro.sub = w.ro.sub := by
+theorem reconcile_inconsistent_core (w : World) (wl : WL) (r : StepResult) (hdel : w.ro.deleting = false) (hwl : w.wl = some wl)
+    (hc : wl.consistent = false) (h : reconcileCore w = .val r) : r.w.ro.sub = w.ro.sub := by
   have hfr := hf_frame w.ro
-  unfold reconcile at h
+  unfold reconcileCore at h
   dsimp only at h
   have : calculateStatus (handleFinalizer w.ro).1 w.wl = none := by
     unfold calculateStatus
@@ -1596,7 +1597,7 @@ theorem reconcile_inconsistent (w : World) (wl : WL) (r : StepResult) (hdel : w.
   dsimp only
   rw [hfr]
 
-theorem advance_and_ready_gated (w : World) (r : StepResult) (h : reconcile w = .val r) :
+theorem advance_and_ready_gated_core (w : World) (r : StepResult) (h : reconcileCore w = .val r) :
     advanceGated w r = true ∧ readyGated w r = true := by
   -- both oracles only speak about a rolling rollout that has a sub-status before and after
   cases hos : w.ro.sub with
@@ -1628,12 +1629,12 @@ theorem advance_and_ready_gated (w : World) (r : StepResult) (h : reconcile w = 
       intro wl hwl
       cases hc : wl.consistent with
       | false =>
-        have := reconcile_inconsistent w wl r hndel hwl hc h
+        have := reconcile_inconsistent_core w wl r hndel hwl hc h
         rw [hs', hos] at this
         cases this
         exact ⟨fun hne => absurd rfl hne, fun hr hnr _ => absurd hr hnr⟩
       | true =>
-        obtain ⟨ns, s, hsame, hs, hcore, hreason, hrec⟩ := reconcile_inRolling w wl os hph hr hwl hc hos
+        obtain ⟨ns, s, hsame, hs, hcore, hreason, hrec⟩ := reconcile_inRolling_core w wl os hph hr hwl hc hos
         rw [hrec] at h
         split at h
         · cases h
@@ -1686,7 +1687,7 @@ theorem advance_and_ready_gated (w : World) (r : StepResult) (h : reconcile w = 
           -- without a workload the reconcile of a rolling rollout returns the new status unchanged
           exfalso
           have hfr := hf_frame w.ro
-          unfold reconcile at h
+          unfold reconcileCore at h
           dsimp only at h
           split at h
           · cases h
@@ -1907,10 +1908,10 @@ theorem inRolling_routing (w : World) (old ns : Rollout) (s os : Sub) (wl : WL) 
                       ← doCanaryUpgrade_congr ns s cx.sub wl w.br (by rw [cx1, hcur])]
                   exact cx4
 
-theorem reconcile_nowl (w : World) (r : StepResult) (hph : w.ro.phase = .progressing) (hndel : w.ro.deleting = false)
-    (hw : w.wl = none) (h : reconcile w = .val r) : r.w.ro.sub = none ∨ r.w.ro.sub = w.ro.sub := by
+theorem reconcile_nowl_core (w : World) (r : StepResult) (hph : w.ro.phase = .progressing) (hndel : w.ro.deleting = false)
+    (hw : w.wl = none) (h : reconcileCore w = .val r) : r.w.ro.sub = none ∨ r.w.ro.sub = w.ro.sub := by
   have hfr := hf_frame w.ro
-  unfold reconcile at h
+  unfold reconcileCore at h
   dsimp only at h
   split at h
   · cases h
@@ -1938,7 +1939,7 @@ theorem reconcile_nowl (w : World) (r : StepResult) (hph : w.ro.phase = .progres
     `StepTrafficRouting` of a step it was not already routing only if that step's pods were already reported
     ready (sub-state past the upgrade), or it was in `StepUpgrade`/`BeforeStepUpgrade` of the same step and the
     BatchRelease — as it was before this reconcile wrote anything to it — reports the step's pods ready. -/
-theorem enter_routing_gated (w : World) (r : StepResult) (h : reconcile w = .val r) : enterRoutingGated w r = true := by
+theorem enter_routing_gated_core (w : World) (r : StepResult) (h : reconcileCore w = .val r) : enterRoutingGated w r = true := by
   unfold enterRoutingGated
   cases hos : w.ro.sub with
   | none => rfl
@@ -1962,14 +1963,14 @@ theorem enter_routing_gated (w : World) (r : StepResult) (h : reconcile w = .val
       · exact hc rfl
     cases hw : w.wl with
     | none =>
-      rcases reconcile_nowl w r hph hndel hw h with hn | hn
+      rcases reconcile_nowl_core w r hph hndel hw h with hn | hn
       · rw [hs'] at hn; cases hn
       · exact absurd hn unchanged
     | some wl =>
       cases hcons : wl.consistent with
-      | false => exact absurd (reconcile_inconsistent w wl r hndel hw hcons h) unchanged
+      | false => exact absurd (reconcile_inconsistent_core w wl r hndel hw hcons h) unchanged
       | true =>
-        obtain ⟨ns, s, hsame, hs, hcore, hreason, hrec⟩ := reconcile_inRolling w wl os hph hr hw hcons hos
+        obtain ⟨ns, s, hsame, hs, hcore, hreason, hrec⟩ := reconcile_inRolling_core w wl os hph hr hw hcons hos
         rw [hrec] at h
         split at h
         · cases h
@@ -2133,7 +2134,7 @@ theorem inRolling_unpin (w : World) (old ns : Rollout) (s os : Sub) (wl : WL) (r
     rolling partition-style (`realPartition`) canary rollout out of `StepInit` of a step (with traffic) whose replicas cover the whole
     workload — i.e. hands the batch that replaces the last stable pod to the BatchRelease — the stable
     Service, if it exists, is un-pinned afterwards. -/
-theorem full_step_unpins_first (w : World) (r : StepResult) (h : reconcile w = .val r) :
+theorem full_step_unpins_first_core (w : World) (r : StepResult) (h : reconcileCore w = .val r) :
     fullStepUnpinsFirst w r = true := by
   unfold fullStepUnpinsFirst
   cases hos : w.ro.sub with
@@ -2153,7 +2154,7 @@ theorem full_step_unpins_first (w : World) (r : StepResult) (h : reconcile w = .
     unfold inRollingNow at hnow'
     simp only [Bool.and_eq_true, decide_eq_true_eq, Bool.not_eq_true'] at hnow'
     obtain ⟨⟨hph, hr⟩, hndel⟩ := hnow'
-    obtain ⟨ns, s, hsame, hs, hcore, hreason, hrec⟩ := reconcile_inRolling w wl os hph hr hw hcons hos
+    obtain ⟨ns, s, hsame, hs, hcore, hreason, hrec⟩ := reconcile_inRolling_core w wl os hph hr hw hcons hos
     simp only [subCore, Prod.mk.injEq] at hcore
     obtain ⟨c1, _, c3, _⟩ := hcore
     rw [hrec] at h
@@ -2255,7 +2256,7 @@ theorem reset_routes_first (c c' : Ctx) (d : Bool) (hhas : c.ro.hasTraffic = tru
 /-- **C10 (supersession, whole reconcile)** — for every world: while a newer revision supersedes the one being
     released, a reconcile that starts the reset deletes the BatchRelease / removes the canary Service only
     if it leaves no canary route behind. -/
-theorem reset_routes_first_reconcile (w : World) (r : StepResult) (h : reconcile w = .val r) :
+theorem reset_routes_first_reconcile_core (w : World) (r : StepResult) (h : reconcileCore w = .val r) :
     resetRoutesFirst w r = true := by
   unfold resetRoutesFirst
   cases hos : w.ro.sub with
@@ -2272,7 +2273,7 @@ theorem reset_routes_first_reconcile (w : World) (r : StepResult) (h : reconcile
     unfold inRollingNow at hnow'
     simp only [Bool.and_eq_true, decide_eq_true_eq, Bool.not_eq_true'] at hnow'
     obtain ⟨⟨hph, hr⟩, _⟩ := hnow'
-    obtain ⟨ns, s, hsame, hs, hcore, _, hrec⟩ := reconcile_inRolling w wl os hph hr hw hcons hos
+    obtain ⟨ns, s, hsame, hs, hcore, _, hrec⟩ := reconcile_inRolling_core w wl os hph hr hw hcons hos
     simp only [subCore, Prod.mk.injEq] at hcore
     obtain ⟨_, _, _, _, c5, c6, _⟩ := hcore
     rw [hrec] at h
@@ -2332,3 +2333,260 @@ theorem reset_routes_first_reconcile (w : World) (r : StepResult) (h : reconcile
           | some b => simp; exact Or.inl (Classical.em _)
         · rw [k3]; simp
   · rfl
+
+/-- a reconcile of a Progressing rollout never writes the Terminating reason Completed: only the Terminating branch does -/
+theorem progressing_term_core (w : World) (r : StepResult) (h : reconcileCore w = .val r) (hph : w.ro.phase = .progressing) :
+    r.w.ro.term = .completed → w.ro.term = .completed := by
+  have hfr := hf_frame w.ro
+  have e_term : (handleFinalizer w.ro).1.term = w.ro.term := by rw [hfr]
+  have e_del : (handleFinalizer w.ro).1.deleting = w.ro.deleting := by rw [hfr]
+  unfold reconcileCore at h
+  dsimp only at h
+  split at h
+  · cases h
+    exact fun h1 => e_term ▸ h1
+  · rename_i ns hcs
+    obtain ⟨cf, ct1, ct2⟩ := cs_fin _ ns w.wl hcs
+    have hnsT : ns.term = .completed → w.ro.term = .completed := by
+      intro hc
+      cases hd : w.ro.deleting with
+      | false =>
+        rcases ct1 (by rw [e_del]; exact hd) with h1 | ⟨_, _, h1⟩
+        · rw [← e_term, ← h1]; exact hc
+        · rw [h1] at hc; cases hc
+      | true =>
+        rcases ct2 (by rw [e_del]; exact hd) with h1 | ⟨_, h1⟩
+        · rw [← e_term, ← h1]; exact hc
+        · rw [h1] at hc; cases hc
+    have leafNs : ∀ (ro' : Rollout) (w0 : World) (rq e : Bool) (ws : List String),
+        Out.val { w := { w0 with ro := ro' }, roGone := (handleFinalizer w.ro).2.1, requeue := rq, err := e, writes := ws } = Out.val r →
+        ro'.term = ns.term → r.w.ro.term = .completed → w.ro.term = .completed := by
+      intro ro' w0 rq e ws hh h2 hc
+      cases hh
+      exact hnsT (h2 ▸ hc)
+    have leafRo1 : ∀ (w0 : World) (rq e : Bool) (ws : List String),
+        Out.val { w := { w0 with ro := (handleFinalizer w.ro).1 }, roGone := (handleFinalizer w.ro).2.1, requeue := rq, err := e, writes := ws } = Out.val r →
+        r.w.ro.term = .completed → w.ro.term = .completed := by
+      intro w0 rq e ws hh hc
+      cases hh
+      exact e_term ▸ hc
+    have finBranch : ∀ (wl : Option WL) (reason : Reason) (wr : Bool) (upd : Rollout → Rollout),
+        (∀ x, (upd x).term = x.term) →
+        (match finalise w ns wl reason wr with
+         | none => Out.panic
+         | some (w', done, err, ws) =>
+           if err then .val { w := { w' with ro := (handleFinalizer w.ro).1 }, roGone := (handleFinalizer w.ro).2.1, requeue := false, err := true,
+                              writes := (handleFinalizer w.ro).2.2 ++ ws }
+           else if done then .val { w := { w' with ro := upd w'.ro }, roGone := (handleFinalizer w.ro).2.1, requeue := false, err := false,
+                                    writes := (handleFinalizer w.ro).2.2 ++ ws }
+           else .val { w := w', roGone := (handleFinalizer w.ro).2.1, requeue := true, err := false, writes := (handleFinalizer w.ro).2.2 ++ ws }) = Out.val r →
+        r.w.ro.term = .completed → w.ro.term = .completed := by
+      intro wl reason wr upd hupd hh
+      split at hh
+      · cases hh
+      · rename_i w' done err ws hfz
+        obtain ⟨_, f2, _⟩ := finalise_fin _ _ _ _ _ _ _ _ _ hfz
+        split at hh
+        · exact leafRo1 _ _ _ _ hh
+        · split at hh
+          · cases hh
+            intro hc
+            exact hnsT (f2 ▸ (hupd w'.ro) ▸ hc)
+          · cases hh
+            intro hc
+            exact hnsT (f2 ▸ hc)
+    rw [hph] at h
+    dsimp only at h
+    split at h
+    · exact leafNs _ _ _ _ _ h rfl
+    · rename_i wl hwl
+      split at h
+      · exact leafNs _ _ _ _ _ h rfl
+      · split at h
+        · cases h
+        · -- initializing
+          split at h
+          · cases h
+          · split at h
+            · exact leafRo1 _ _ _ _ h
+            · split at h
+              · exact leafNs _ _ _ _ _ h rfl
+              · exact leafNs _ _ _ _ _ h rfl
+        · -- inRolling
+          split at h
+          · split at h
+            · cases h
+            · split at h
+              · exact leafNs _ _ _ _ _ h rfl
+              · cases h
+          · split at h
+            · cases h
+            · rename_i r0 hir
+              obtain ⟨_, i2, _⟩ := inRolling_fin _ _ _ _ _ _ hir
+              split at h
+              · exact leafRo1 _ _ _ _ h
+              · cases h
+                exact fun hc => hnsT (i2 ▸ hc)
+        · exact finBranch (some wl) .success true (fun x => { x with reason := .completed, succeeded := some true })
+            (fun x => rfl) h
+        · split at h
+          · exact leafNs _ _ _ _ _ h rfl
+          · exact leafNs _ _ _ _ _ h rfl
+        · exact finBranch (some wl) .rollback false (fun x => { x with reason := .completed, succeeded := some false })
+            (fun x => rfl) h
+        · exact leafNs _ _ _ _ _ h rfl
+        · exact leafNs _ _ _ _ _ h rfl
+
+/-! ### the whole reconcile: body + cursor reset (fix "cursor reset")
+
+`reconcile w = (reconcileCore w).map (resetOnExit w)`: after the switch on the old phase and before the status is written,
+a Progressing rollout whose new status says Terminating / Disabling gets its clean-up cursor cleared.  The theorems above
+(`…_core`) are about the body; the oracles below do not see the reset (`…_reset`: the oracle's value on the result after
+the reset equals its value before — none of them reads the cursor of the result in a state where the reset fires), so every
+one of them holds of the whole reconcile by `RV.RolloutSM.transfer`. -/
+
+section Transfer
+open RV.RolloutSM
+
+/-- the tactic behind every `…_reset` lemma: rewrite what the reset leaves alone, then look at the sub-status -/
+scoped macro "reset_frame" : tactic =>
+  `(tactic| (simp only [resetOnExit_br, resetOnExit_net, resetOnExit_wl, resetOnExit_mem, resetOnExit_roGone, resetOnExit_requeue,
+      resetOnExit_err, resetOnExit_writes, resetOnExit_phase, resetOnExit_reason, resetOnExit_term, resetOnExit_steps,
+      resetOnExit_style, resetOnExit_paused, resetOnExit_disabled, resetOnExit_deleting, resetOnExit_hasFinalizer,
+      resetOnExit_hasTraffic, resetOnExit_succeeded, resetOnExit_condAge, resetOnExit_realPartition, resetOnExit_sub]))
+
+theorem rollbackFirst_reset (w : World) (r : StepResult) : rollbackFirst w (resetOnExit w r) = rollbackFirst w r := by
+  unfold rollbackFirst; reset_frame
+
+theorem pausedNoProgress_reset (w : World) (r : StepResult) : pausedNoProgress w (resetOnExit w r) = pausedNoProgress w r := by
+  unfold pausedNoProgress; reset_frame; cases w.ro.sub <;> cases r.w.ro.sub <;> cases w.wl <;> rfl
+
+theorem blueGreenRefusesContinuous_reset (w : World) (r : StepResult) :
+    blueGreenRefusesContinuous w (resetOnExit w r) = blueGreenRefusesContinuous w r := by
+  unfold blueGreenRefusesContinuous; reset_frame; cases w.ro.sub <;> cases r.w.ro.sub <;> cases w.wl <;> rfl
+
+theorem jumpRequested_clear (ro ro' : Rollout) (s : Sub) (f : FinStep) (h : ro'.steps = ro.steps) :
+    jumpRequested ro' { s with finStep := f } = jumpRequested ro s := by
+  unfold jumpRequested; rw [h]
+
+theorem noSelfJump_reset (w : World) (r : StepResult) : noSelfJump w (resetOnExit w r) = noSelfJump w r := by
+  unfold noSelfJump; reset_frame
+  cases r.w.ro.sub with
+  | none => rfl
+  | some s => simp only [Option.map_some]; rw [jumpRequested_clear _ _ _ _ (resetOnExit_steps w r)]
+
+theorem advanceGated_reset (w : World) (r : StepResult) : advanceGated w (resetOnExit w r) = advanceGated w r := by
+  unfold advanceGated; reset_frame; cases w.ro.sub <;> cases r.w.ro.sub <;> cases w.wl <;> rfl
+
+theorem readyGated_reset (w : World) (r : StepResult) : readyGated w (resetOnExit w r) = readyGated w r := by
+  unfold readyGated; reset_frame; cases w.ro.sub <;> cases r.w.ro.sub <;> cases w.wl <;> rfl
+
+theorem enterRoutingGated_reset (w : World) (r : StepResult) : enterRoutingGated w (resetOnExit w r) = enterRoutingGated w r := by
+  unfold enterRoutingGated; reset_frame; cases w.ro.sub <;> cases r.w.ro.sub <;> cases w.wl <;> rfl
+
+theorem fullStepUnpinsFirst_reset (w : World) (r : StepResult) :
+    fullStepUnpinsFirst w (resetOnExit w r) = fullStepUnpinsFirst w r := by
+  unfold fullStepUnpinsFirst; reset_frame; cases w.ro.sub <;> cases r.w.ro.sub <;> cases w.wl <;> rfl
+
+theorem resetRoutesFirst_reset (w : World) (r : StepResult) : resetRoutesFirst w (resetOnExit w r) = resetRoutesFirst w r := by
+  unfold resetRoutesFirst; reset_frame
+
+/-- `inconsistentWaits` compares the cursor, but also the phase: where the reset fires the phase has changed and the oracle is
+    false before and after -/
+theorem inconsistentWaits_reset (w : World) (r : StepResult) : inconsistentWaits w (resetOnExit w r) = inconsistentWaits w r := by
+  cases hx : exitsProgressing w r with
+  | false => rw [resetOnExit_of_not w r hx]
+  | true =>
+    have hne : (r.w.ro.phase == w.ro.phase) = false := by
+      simp only [exitsProgressing, Bool.and_eq_true, Bool.or_eq_true, decide_eq_true_eq] at hx
+      obtain ⟨h1, h2⟩ := hx
+      rw [h1]; rcases h2 with h2 | h2 <;> rw [h2] <;> rfl
+    unfold inconsistentWaits; reset_frame
+    cases w.wl with
+    | none => rfl
+    | some wl => simp only [hne, Bool.and_false, Bool.false_and]
+
+/-- **C09.ii (whole reconcile)** — for every world (rollout, workload, BatchRelease, network state, grace
+    memory) that is not internally corrupted — in particular for **every** value a user can patch into
+    `nextStepIndex` and `currentStepState`, every plan edit the webhook accepts, every BatchRelease
+    progress report — one `Reconcile` of the Rollout controller does not crash. -/
+theorem reconcile_total (w : World) (h : corrupted w = false) : reconcile w ≠ .panic := by
+  rw [Ne, reconcile_panic_iff]; exact reconcile_total_core w h
+
+/-- **C10 (whole reconcile)** — for every world: a rollback of the workload observed while the rollout is
+    rolling is dispatched before anything else (pause, plan change, continuous release, normal progress):
+    the reason becomes Cancelling — which runs the rollback task list, traffic back to stable first — and
+    this reconcile writes nothing to the BatchRelease or the network. -/
+theorem rollback_first (w : World) (r : StepResult) (h : reconcile w = .val r) : rollbackFirst w r = true :=
+  transfer rollbackFirst rollbackFirst_reset rollback_first_core w r h
+
+/-- **C02.iii (whole reconcile)** — for every world: while `spec.strategy.paused` is set, a reconcile of a rolling rollout
+    (finalizer in place) writes nothing and moves nothing; the reason becomes Paused (see `paused_no_progress_core`). -/
+theorem paused_no_progress (w : World) (r : StepResult) (h : reconcile w = .val r) (hfin : w.ro.hasFinalizer = true) :
+    pausedNoProgress w r = true := by
+  obtain ⟨r0, h0, rfl⟩ := reconcile_val h
+  rw [pausedNoProgress_reset]; exact paused_no_progress_core w r0 h0 hfin
+
+/-- **whole reconcile** — for every world: while the workload's status lags behind its spec and the Rollout is not being
+    deleted, a reconcile writes nothing to the BatchRelease, the workload or the network, keeps the status cursor, the
+    phase and the reason, and requeues. -/
+theorem inconsistent_waits (w : World) (r : StepResult) (h : reconcile w = .val r) : inconsistentWaits w r = true :=
+  transfer inconsistentWaits inconsistentWaits_reset inconsistent_waits_core w r h
+
+/-- **C10 (whole reconcile)** — blue-green refuses a newer revision: nothing changes. -/
+theorem bluegreen_refuses_continuous (w : World) (r : StepResult) (h : reconcile w = .val r) :
+    blueGreenRefusesContinuous w r = true :=
+  transfer blueGreenRefusesContinuous blueGreenRefusesContinuous_reset bluegreen_refuses_continuous_core w r h
+
+/-- **C02.ii (whole reconcile)** — for every world: if the status carries no jump request before a
+    reconcile (or there is no sub-status yet), it carries none afterwards.  Only a user writes a jump request. -/
+theorem no_self_jump (w : World) (r : StepResult) (h : reconcile w = .val r) : noSelfJump w r = true :=
+  transfer noSelfJump noSelfJump_reset no_self_jump_core w r h
+
+/-- **C02.i (whole reconcile)** — the step index and `StepReady` are gated. -/
+theorem advance_and_ready_gated (w : World) (r : StepResult) (h : reconcile w = .val r) :
+    advanceGated w r = true ∧ readyGated w r = true := by
+  obtain ⟨r0, h0, rfl⟩ := reconcile_val h
+  rw [advanceGated_reset, readyGated_reset]; exact advance_and_ready_gated_core w r0 h0
+
+/-- **C03.ii (whole reconcile)** — for every world: a reconcile leaves a rolling rollout in
+    `StepTrafficRouting` / `StepMetricsAnalysis` of a step it was not in before only if the
+    BatchRelease — as it was before this reconcile wrote anything to it — reports the step's pods ready. -/
+theorem enter_routing_gated (w : World) (r : StepResult) (h : reconcile w = .val r) : enterRoutingGated w r = true :=
+  transfer enterRoutingGated enterRoutingGated_reset enter_routing_gated_core w r h
+
+/-- **C04 (stable half, whole reconcile)** — a full step leaves `StepInit` towards the upgrade only with the stable Service
+    un-pinned. -/
+theorem full_step_unpins_first (w : World) (r : StepResult) (h : reconcile w = .val r) :
+    fullStepUnpinsFirst w r = true :=
+  transfer fullStepUnpinsFirst fullStepUnpinsFirst_reset full_step_unpins_first_core w r h
+
+/-- **C10 (supersession, whole reconcile)** — for every world: while a newer revision supersedes the one being
+    released, a reconcile that starts the reset deletes the BatchRelease / removes the canary Service only
+    with traffic back on stable. -/
+theorem reset_routes_first_reconcile (w : World) (r : StepResult) (h : reconcile w = .val r) :
+    resetRoutesFirst w r = true :=
+  transfer resetRoutesFirst resetRoutesFirst_reset reset_routes_first_reconcile_core w r h
+
+/-- **C18 (Rollout, whole reconcile)** — for every world and every result of one reconcile: the Rollout
+    loses its finalizer (or disappears) only while being deleted with its Terminating
+    condition already saying Completed; and that condition becomes Completed only in a reconcile whose
+    clean-up cursor is at END (or without sub-status).  The condition becomes Completed only in the Terminating branch —
+    the old phase is Terminating, the reset (old phase Progressing) does not fire — so the cursor read here is the body's
+    (`progressing_term_core`). -/
+theorem finalizer_guard (w : World) (r : StepResult) (h : reconcile w = .val r) : finalizerGuard w r = true := by
+  obtain ⟨r0, h0, rfl⟩ := reconcile_val h
+  have hcore := finalizer_guard_core w r0 h0
+  cases hx : exitsProgressing w r0 with
+  | false => rw [resetOnExit_of_not w r0 hx]; exact hcore
+  | true =>
+    have hph : w.ro.phase = .progressing := by
+      simp only [exitsProgressing, Bool.and_eq_true, decide_eq_true_eq] at hx; exact hx.1
+    have hterm := progressing_term_core w r0 h0 hph
+    unfold finalizerGuard at hcore ⊢
+    reset_frame
+    simp only [Bool.and_eq_true] at hcore ⊢
+    refine ⟨hcore.1, ?_⟩
+    rw [if_neg (by intro hc; exact hc.2 (hterm hc.1))]
+
+end Transfer
